@@ -431,16 +431,16 @@ int main(void) {
     struct op *o = &ops[nops];
     memset(o, 0, sizeof *o);
     o->kind = ln[0];
-    static char hex[1 << 20];
+    static char hex[1 << 22];
     switch (ln[0]) {
     case 'C': { char kind[8]; int cap = 0; if (sscanf(ln + 2, "%d %7s %d", &o->i, kind, &cap) >= 2) { o->a = !strcmp(kind, "ext"); o->b = cap; } break; }
     case 'M': case 'D': case 'P': case 'X': sscanf(ln + 2, "%d", &o->i); break;
     case 'O': sscanf(ln + 2, "%d %15s %d", &o->i, o->s, &o->a); break;
     case 'K': case 'F': case 'G': sscanf(ln + 2, "%d %d", &o->i, &o->a); break;
     case 'W': sscanf(ln + 2, "%d %d %d %d %d", &o->a, &o->b, &o->c, &o->d, &o->e); break;
-    case 'A': case 'T': hex[0] = 0; sscanf(ln + 2, "%d %7s %31s %1048575s", &o->i, o->flags, o->tag, hex); break;
-    case 'N': case 'U': hex[0] = 0; sscanf(ln + 2, "%d %d %7s %31s %1048575s", &o->i, &o->a, o->flags, o->tag, hex); break;
-    case 'B': hex[0] = 0; sscanf(ln + 2, "%d %1048575s", &o->i, hex); break;
+    case 'A': case 'T': hex[0] = 0; sscanf(ln + 2, "%d %7s %31s %4194303s", &o->i, o->flags, o->tag, hex); break;
+    case 'N': case 'U': hex[0] = 0; sscanf(ln + 2, "%d %d %7s %31s %4194303s", &o->i, &o->a, o->flags, o->tag, hex); break;
+    case 'B': hex[0] = 0; sscanf(ln + 2, "%d %4194303s", &o->i, hex); break;
     case 'Z': sscanf(ln + 2, "%15s %d", o->s, &o->a); break;
     default: continue;
     }
